@@ -7,7 +7,7 @@ import time
 
 VERIF = os.path.dirname(os.path.dirname(os.path.abspath(__file__)))
 TARGET = os.path.join(VERIF, 'build', 'finder-target')
-SUPPORTED = {'C15', 'C06', 'C11', 'C04', 'C05', 'C16', 'C01', 'C08', 'C03', 'C13', 'C02', 'C09', 'C12', 'C19', 'C14'}
+SUPPORTED = {'C15', 'C06', 'C11', 'C04', 'C05', 'C16', 'C01', 'C08', 'C03', 'C13', 'C02', 'C09', 'C12', 'C19', 'C14', 'C20'}
 
 
 def _env():
@@ -20,6 +20,7 @@ def _env():
 
 def build(repo):
     """returns path to binary or None"""
+    _DUCK['repo'] = repo
     src = os.path.join(VERIF, 'build', 'finder-src-%s' % abs(hash(repo)))
     os.makedirs(os.path.join(src, 'src'), exist_ok=True)
     for f in os.listdir(os.path.join(VERIF, 'finder', 'src')):
@@ -35,9 +36,28 @@ def build(repo):
     return os.path.join(TARGET, 'debug', 'verif_finder'), ''
 
 
+def build_duck(repo):
+    """builds the CLI of the tree being checked (C20 runs the real executable)"""
+    e = _env()
+    e['CARGO_TARGET_DIR'] = os.path.join(VERIF, 'build', 'duck-target-%s' % abs(hash(repo)))
+    p = subprocess.run(['cargo', 'build', '--offline', '--quiet', '-p', 'duckscript_cli'], cwd=repo, env=e, stdout=subprocess.PIPE, stderr=subprocess.PIPE, text=True)
+    b = os.path.join(e['CARGO_TARGET_DIR'], 'debug', 'duck')
+    return b if p.returncode == 0 and os.path.exists(b) else None
+
+
+_DUCK = {}
+
+
 def _run(binp, args, timeout):
+    env = dict(os.environ)
+    if args and args[0] == 'C20':
+        repo = _DUCK.get('repo', '/repo')
+        if repo not in _DUCK:
+            _DUCK[repo] = build_duck(repo)
+        if _DUCK[repo]:
+            env['VERIF_DUCK_BIN'] = _DUCK[repo]
     try:
-        p = subprocess.run([binp] + args, stdout=subprocess.PIPE, stderr=subprocess.PIPE, text=True, timeout=timeout)
+        p = subprocess.run([binp] + args, env=env, stdout=subprocess.PIPE, stderr=subprocess.PIPE, text=True, timeout=timeout)
     except subprocess.TimeoutExpired:
         return dict(found=False, error='finder timeout (possible hang in real code)', hang=True)
     lines = [l for l in p.stdout.strip().split('\n') if l.startswith('{')]
